@@ -5,12 +5,17 @@
        ways), all instances with <= 3 segments; the pinned NASA-9 rule ("first") is a
        variant that TLC rejects and characterises.  spec/FitCases.tla enumerates the
        configuration space of a fit (family x source x segments x T_ref position x
-       T_mid form x route).
-(S->C) every configuration is instantiated with random windows / data and run through
-       the real from_data / from_model.
+       T_mid form x route) and, per configuration, the admissible values of the rotating
+       axes (window class, n_T, order / container of the data, container of T_mid, form
+       of the model argument, fit_T_mid, NASA-9 grid).
+(S->C) every configuration is instantiated with windows / data drawn from the quantifier
+       (100 K <= T_low < T_high <= 3000 K, n_T 15..200, every Shomate unit, T_ref anywhere
+       in the window) and run through the real from_data / from_model.
 (C->S) spec/Trace_Fit.tla judges each fit: anchor, continuity at every break, bounds,
-       breaks strictly inside, exact recovery for polynomial sources, coarse tracking
+       breaks strictly inside, exact recovery for polynomial sources, banded tracking
        for statistical-mechanical sources.
+
+Narrow readings: see the header of spec/FitCases.tla.
 """
 import math
 import random
@@ -22,6 +27,10 @@ from harness.core import to_dec
 UNITS = ['J/mol/K', 'cal/mol/K', 'kJ/mol/K', 'eV/K', 'kcal/mol/K', 'L atm/mol/K', 'Eh/K', 'Ha/K', 'L kPa/mol/K',
          'cm3 kPa/mol/K', 'm3 Pa/mol/K', 'cm3 MPa/mol/K', 'm3 bar/mol/K', 'L bar/mol/K', 'L torr/mol/K',
          'cm3 atm/mol/K']
+# one round of the unit rotation: every unit once, the two smallest (R = 3.2e-6: coefficients of 1e-5 .. 1e-9) three times
+UNIT_ROUND = UNITS + ['Eh/K', 'Ha/K'] * 2
+AXES = (('win', 'wins'), ('nt', 'nts'), ('order', 'orders'), ('cont', 'conts'), ('tmform', 'tmforms'),
+        ('mform', 'mforms'), ('fit', 'fits'), ('grid', 'grids'), ('reft', 'refts'))
 
 
 def _poly_coeffs(rnd, fam, scale=1.0):
@@ -57,18 +66,31 @@ def _evals(fam, units):
             lambda a, T: float(S.get_shomate_SoR(np.array(a), np.array([T]), units)[0]))
 
 
-def _statmech(rnd, gas, nmodes=None):
-    from pmutt.statmech import StatMech, trans, vib, rot, elec
+def _statmech_kwargs(rnd, gas, nmodes=None, kind='vib'):
+    """Constructor arguments of an ideal-gas / adsorbate StatMech species over the C01 parameter range
+    (wavenumbers 10-4500 cm^-1 in the three regimes theta << T, theta ~ T, theta >> T; rotational temperatures
+    0.01-100 K, linear and nonlinear rotors; molar mass 1-500 g/mol; any spin; potential energy -40..2 eV).
+    kind 'const': a monatomic ideal gas (Cp/R = 5/2 exactly); 'zero': electronic ground state only (Cp = 0).
+    Returned as class + parameter keywords (what from_model(model=StatMech, **kw) takes)."""
+    from pmutt.statmech import trans, vib, rot, elec
+    kw = dict(elec_model=elec.GroundStateElec, potentialenergy=rnd.choice([rnd.uniform(-3, 0), rnd.uniform(-40, 2)]),
+              spin=rnd.choice([0, 0.5, 1, 1.5, 2]))
+    if kind == 'zero':
+        return kw
+    if kind == 'const':
+        kw.update(trans_model=trans.FreeTrans, n_degrees=3, molecular_weight=rnd.uniform(1, 500))
+        return kw
     n = nmodes or rnd.choice([1, 1, 2, 3, 5, 9, 15])          # diatomic ... 15-mode adsorbate
-    wn = [rnd.uniform(150, 4000) for _ in range(n)]
-    kw = dict(name='src', vib_model=vib.HarmonicVib(vib_wavenumbers=wn),
-              elec_model=elec.GroundStateElec(potentialenergy=rnd.uniform(-3, 0), spin=rnd.choice([0, 0.5, 1])),
-              elements={'C': 1, 'H': 4})
+    wn = [rnd.choice([rnd.uniform(10, 200), rnd.uniform(200, 1500), rnd.uniform(150, 4000), rnd.uniform(1500, 4500)])
+          for _ in range(n)]
+    kw.update(vib_model=vib.HarmonicVib, vib_wavenumbers=wn)
     if gas:
-        kw['trans_model'] = trans.FreeTrans(n_degrees=3, molecular_weight=rnd.uniform(2, 200))
-        kw['rot_model'] = rot.RigidRotor(symmetrynumber=rnd.choice([1, 2, 3, 12]),
-                                         rot_temperatures=[rnd.uniform(0.1, 30) for _ in range(3)], geometry='nonlinear')
-    return StatMech(**kw)
+        linear = rnd.random() < 0.3
+        kw.update(trans_model=trans.FreeTrans, n_degrees=3, molecular_weight=rnd.choice([1.008, rnd.uniform(1, 500)]),
+                  rot_model=rot.RigidRotor, symmetrynumber=rnd.choice([1, 2, 3, 6, 12]),
+                  rot_temperatures=[10 ** rnd.uniform(-2, 2) for _ in range(1 if linear else 3)],
+                  geometry='linear' if linear else 'nonlinear')
+    return kw
 
 
 class _PolyModel:
@@ -91,71 +113,143 @@ class _PolyModel:
         return self.ev[2](self.a, float(T))
 
 
+def _window(rnd, wc):
+    """a window of the class; the bounds 100 K and 3000 K themselves are reached by full / low_end / high_end"""
+    if wc == 'full':
+        return 100.0, 3000.0
+    if wc == 'wide':
+        lo = rnd.uniform(100, 600)
+        return lo, rnd.uniform(max(1200.0, lo + 800), 3000)
+    if wc == 'narrow':                                   # a few hundred K anywhere in the range
+        span = rnd.uniform(100, 500)
+        lo = rnd.uniform(100, 3000 - span)
+        return lo, lo + span
+    if wc == 'tiny':                                     # tens of K
+        span = rnd.uniform(20, 100)
+        lo = rnd.uniform(100, 3000 - span)
+        return lo, lo + span
+    if wc == 'low_end':
+        return 100.0, rnd.uniform(250, 700)
+    if wc == 'high_end':
+        return rnd.uniform(1800, 2800), 3000.0
+    lo = rnd.uniform(1200, 2400)                         # high_only
+    return lo, rnd.uniform(lo + 300, 3000)
+
+
+def _n_T(rnd, nt):
+    return {'15': 15, '16': 16, '199': 199, '200': 200}.get(nt) or rnd.randrange(17, 199)
+
+
+def _mk_statmech(kw, T_low=None, T_high=None):
+    from pmutt.statmech import StatMech
+    m = StatMech(name='src', elements={'C': 1, 'H': 4}, **kw)
+    if T_low is not None:
+        m.T_low, m.T_high = T_low, T_high
+    return m
+
+
 def execute(case):
     import warnings
     warnings.simplefilter('ignore')
     import numpy as np
     from pmutt.empirical.nasa import Nasa, Nasa9
     from pmutt.empirical.shomate import Shomate
-    from pmutt.empirical import nasa as N
+    from pmutt.statmech import StatMech
+    from pmutt import constants as _c
     rnd = random.Random(case['cseed'])
     fam, src, nseg, route = case['fam'], case['src'], case['nseg'], case['route']
-    units = UNITS[case['cseed'] % len(UNITS)]
-    from pmutt import constants as _c
-    if fam == 'shomate' and case['cseed'] % 8 < 2:
-        units = ('Eh/K', 'Ha/K')[case['cseed'] % 8]          # the smallest units: R = 3.2e-6, a quarter of the Shomate cases
+    win, nt, order, cont = case['win'], case['nt'], case['order'], case['cont']
+    tmform, mform, fit, gridk = case['tmform'], case['mform'], case['fit'] == 'fit', case['grid']
+    units = UNIT_ROUND[case['unit'] % len(UNIT_ROUND)]
+    # physical magnitudes (Cp/R of a few units whatever the unit): always for the smallest units, else every other case
     scale = _c.R(units) / _c.R('J/mol/K') if fam == 'shomate' and (units in ('Eh/K', 'Ha/K')
-                                                                  or (case['cseed'] // len(UNITS)) % 2 == 0) else 1.0
-    T_low = rnd.uniform(100, 600)
-    T_high = rnd.uniform(max(1200.0, T_low + 800), 3000)
-    if src.startswith('statmech'):
-        T_low = max(T_low, 150.0)
+                                                                  or (case['cseed'] // 7) % 2 == 0) else 1.0
+    n = _n_T(rnd, nt)
+    T_low, T_high = _window(rnd, win)
     if case.get('nmodes'):
         # from_model evaluates the source on the whole temperature grid at once: a one-mode (diatomic) source, or a
-        # grid as long as the number of modes, makes that call broadcast; keep the window narrow enough to be judged
-        T_low = rnd.uniform(300, 500)
-        T_high = T_low * rnd.uniform(2.5, 3.8)
-    # interior breaks requested from the library
+        # grid as long as the number of modes, makes that call broadcast
+        if case['nmodes'] == 15:
+            n = 15
+    # ---- the data grid (ascending here; reordered below) and the requested breaks
+    int_grid = False
+    if cont == 'int' and (T_high - T_low) / (n * (nseg if fam == 'nasa9' else 1) - 1) >= 1.0:
+        # integer-typed temperatures: an arithmetic progression of integers inside the window
+        ntot = n * (nseg if fam == 'nasa9' else 1)
+        step = int((T_high - T_low) // (ntot - 1))
+        if win in ('full', 'high_end'):
+            T_high = 3000.0
+            T_low = T_high - step * (ntot - 1)
+        else:
+            T_low = float(math.ceil(T_low))
+            T_high = T_low + step * (ntot - 1)
+        T = (int(T_low) + step * np.arange(ntot)).astype(np.int64)
+        int_grid = True
+        gridk = 'uniform'
+    brk = []
     if fam == 'nasa9':
-        fr = sorted(rnd.uniform(0.25, 0.75) for _ in range(nseg - 1))
-        if nseg == 3 and fr[1] - fr[0] < 0.2:
-            fr = [0.33, 0.66]
-        brk = [T_low + f * (T_high - T_low) for f in fr]
-    elif fam == 'nasa7':
-        brk = [T_low + rnd.uniform(0.3, 0.7) * (T_high - T_low)]
+        if gridk == 'per_interval' and not int_grid:
+            # the grid Nasa9.from_model builds itself: n points per interval, the breaks appear twice
+            fr = sorted(rnd.uniform(0.15, 0.85) for _ in range(nseg - 1))
+            if nseg == 3 and fr[1] - fr[0] < 0.15:
+                fr = [0.33, 0.66]
+            brk = [T_low + f * (T_high - T_low) for f in fr]
+            ed = [T_low] + brk + [T_high]
+            T = np.concatenate([np.linspace(a, b, n) for a, b in zip(ed, ed[1:])])
+        else:
+            if not int_grid:
+                T = np.linspace(T_low, T_high, n * nseg)
+            N = len(T)
+            # every interval keeps >= 9 data temperatures (7 determine the seven Cp coefficients)
+            if nseg == 2:
+                idx = [rnd.randrange(9, N - 10)]
+            elif nseg == 3:
+                i1 = rnd.randrange(9, N - 20)
+                idx = [i1, rnd.randrange(i1 + 10, N - 10)]
+            else:
+                idx = []
+            on_grid = int_grid or rnd.random() < 0.5
+            brk = [float(T[i]) if on_grid else 0.5 * (float(T[i]) + float(T[i + 1])) for i in idx]
     else:
-        brk = []
-    npts = rnd.choice([15, 40, 120, 200]) * max(1, nseg) if fam != 'nasa7' else rnd.choice([30, 60, 200])
-    if fam == 'shomate' and rnd.random() < 0.3:
-        npts = 15                                    # can coincide with the number of modes of the source
-    if case.get('nmodes') == 15 and fam == 'shomate':
-        npts = 15                                    # (NASA fits need >= 10 points per segment)
-    T = np.linspace(T_low, T_high, npts)
-    if fam == 'nasa7' and case['tmid'] != 'none':
-        brk = [float(T[rnd.randrange(10, npts - 10)])]      # a data point, at least 10 points each side
+        if not int_grid:
+            T = np.linspace(T_low, T_high, n)
+        if fam == 'nasa7':
+            if case['tmid'] == 'none' and route == 'data':
+                i = rnd.randrange(5, n - 5)
+            else:
+                i = rnd.randrange(4, n - 5)             # >= 5 data temperatures on either side of a requested T_mid
+            on_grid = int_grid or rnd.random() < 0.5
+            brk = [float(T[i]) if on_grid else 0.5 * (float(T[i]) + float(T[i + 1]))]
+            if route == 'model' and case['tmid'] != 'none' and case['cseed'] % 3 == 0:
+                brk = [0.5 * (T_low + T_high)]          # T_mid exactly the reference temperature from_model uses
     ev = _evals(fam, units)
     edges = [T_low] + brk + [T_high]
     # ---- source
     model = None
+    mkw = None
     href = sref = None
     if src == 'poly':
         a = _poly_coeffs(rnd, fam, scale)
         pieces = [a] * (len(edges) - 1)
     elif src == 'piecewise':
         pieces = [_poly_coeffs(rnd, fam, scale) for _ in range(len(edges) - 1)]
-    elif src == 'const':
-        cval = rnd.uniform(1.5, 9)
-        z = {'nasa7': [cval, 0, 0, 0, 0, rnd.uniform(-3e3, 3e3), rnd.uniform(-5, 5)],
-             'nasa9': [0, 0, cval, 0, 0, 0, 0, rnd.uniform(-3e3, 3e3), rnd.uniform(-5, 5)],
-             'shomate': [x * scale for x in [cval * 8.0, 0, 0, 0, 0, rnd.uniform(-50, 50), rnd.uniform(100, 200), 0]]}[fam]
-        pieces = [z] * (len(edges) - 1)
-    elif src == 'zero':
-        z = {'nasa7': [0] * 5 + [rnd.uniform(-3e3, 3e3), rnd.uniform(-5, 5)],
-             'nasa9': [0] * 7 + [rnd.uniform(-3e3, 3e3), rnd.uniform(-5, 5)],
-             'shomate': [0] * 5 + [rnd.uniform(-50, 50), rnd.uniform(100, 200), 0]}[fam]
+    elif src in ('const', 'zero') and not (route == 'model' and (mform == 'class' or case['cseed'] % 2 == 0)):
+        if src == 'const':
+            cval = rnd.uniform(1.5, 9)
+            z = {'nasa7': [cval, 0, 0, 0, 0, rnd.uniform(-3e3, 3e3), rnd.uniform(-5, 5)],
+                 'nasa9': [0, 0, cval, 0, 0, 0, 0, rnd.uniform(-3e3, 3e3), rnd.uniform(-5, 5)],
+                 'shomate': [x * scale for x in [cval * 8.0, 0, 0, 0, 0, rnd.uniform(-50, 50), rnd.uniform(100, 200), 0]]}[fam]
+        else:
+            z = {'nasa7': [0] * 5 + [rnd.uniform(-3e3, 3e3), rnd.uniform(-5, 5)],
+                 'nasa9': [0] * 7 + [rnd.uniform(-3e3, 3e3), rnd.uniform(-5, 5)],
+                 'shomate': [0] * 5 + [rnd.uniform(-50, 50), rnd.uniform(100, 200), 0]}[fam]
         pieces = [z] * (len(edges) - 1)
     else:
-        model = _statmech(rnd, src == 'statmech_gas', case.get('nmodes'))
+        # a StatMech species: vibrating ideal gas / adsorbate, or (model route) the monatomic gas (constant Cp) and
+        # the purely electronic species (zero Cp)
+        mkw = _statmech_kwargs(rnd, src == 'statmech_gas', case.get('nmodes'),
+                               kind=src if src in ('const', 'zero') else 'vib')
+        model = _mk_statmech(mkw)
         pieces = None
 
     def seg_of(t):
@@ -177,6 +271,10 @@ def execute(case):
         T_ref = rnd.uniform(edges[0], edges[1])
     elif pos == 'break':
         T_ref = rnd.choice(brk)
+    elif pos == 'below_break':
+        T_ref = rnd.choice(brk) * (1 - 1e-9)
+    elif pos == 'above_break':
+        T_ref = rnd.choice(brk) * (1 + 1e-9)
     elif pos == 'middle':
         T_ref = rnd.uniform(edges[1], edges[2])
     elif pos == 'last':
@@ -185,9 +283,19 @@ def execute(case):
         T_ref = T_low
     elif pos == 'high_edge':
         T_ref = T_high
+    elif pos == 'grid':
+        T_ref = float(T[rnd.randrange(len(T))])
     else:
         T_ref = None
+    if case['reft'] == 'int' and pos in ('first', 'middle', 'last'):
+        j = {'first': 0, 'middle': 1, 'last': len(edges) - 2}[pos]
+        r = float(round(0.5 * (edges[j] + edges[j + 1])))
+        if edges[j] < r < edges[j + 1]:
+            T_ref = r                                # an integer-valued reference temperature inside the segment
+    # ---- T_mid argument in its container
     tm_arg = {}
+    guesses = None
+    fi = 'abc'.index(tmform)
     if fam == 'nasa7':
         guesses = [brk[0]]
         if case['tmid'] == 'list':
@@ -196,16 +304,50 @@ def execute(case):
             # five points the low segment's quartic is not determined by the data, so "reproduces the generating
             # polynomial" cannot be demanded of any fit if that guess is taken (a false alarm of an earlier version:
             # seed 3, ExactRecoveryH/S 2e-4 with T_mid on the second data point)
-            if k < 0.35 and model is not None:
-                guesses = [float(T[rnd.randrange(1, 4)]), brk[0], float(T[rnd.randrange(npts // 2, npts - 10)])]
+            if k < 0.35 and model is not None and src not in ('const', 'zero'):
+                guesses = [float(T[rnd.randrange(1, 4)]), brk[0],
+                           float(T[rnd.randrange(len(T) // 2, max(len(T) // 2 + 1, len(T) - 10))])]
             elif k < 0.7:                            # several interior guesses, ascending
-                guesses = sorted({float(T[rnd.randrange(10, npts - 10)]) for _ in range(3)})
-        tm_arg = {'none': {}, 'scalar': {'T_mid': brk[0]}, 'list': {'T_mid': guesses}}[case['tmid']]
+                guesses = sorted({float(T[rnd.randrange(4, len(T) - 5)]) for _ in range(3)} | {brk[0]})
+        if case['tmid'] == 'scalar':
+            v = brk[0]
+            v = [v, int(v) if float(v).is_integer() else v, np.float64(v)][fi]
+            tm_arg = {'T_mid': v}
+        elif case['tmid'] == 'list':
+            tm_arg = {'T_mid': [list(guesses), tuple(guesses), np.array(guesses)][fi]}
     elif fam == 'nasa9':
-        tm_arg = {'none': {}, 'scalar': {'T_mid': brk[0] if brk else None},
-                  'list': {'T_mid': np.array(brk) if case['cseed'] % 2 else list(brk)}}[case['tmid']]
-    e = {'ev': 'fit', 'fam': fam, 'src': 'statmech' if model is not None else src, 'st': 'ok'}
-    info = {'T_low': T_low, 'T_high': T_high, 'brk': brk, 'T_ref': T_ref, 'units': units, 'npts': npts}
+        if case['tmid'] == 'none':
+            tm_arg = [{}, {'T_mid': []}, {'T_mid': np.array([])}][fi] if route == 'data' else {}
+        elif case['tmid'] == 'scalar':
+            v = brk[0]
+            tm_arg = {'T_mid': [v, int(v) if float(v).is_integer() else v, np.float64(v)][fi]}
+        else:
+            tm_arg = {'T_mid': [list(brk), tuple(brk), np.array(brk)][fi]}
+    e = {'ev': 'fit', 'fam': fam, 'src': 'statmech' if (model is not None and src not in ('const', 'zero')) else src,
+         'st': 'ok'}
+    info = {'T_low': T_low, 'T_high': T_high, 'brk': brk, 'T_ref': T_ref, 'units': units, 'npts': int(len(T)),
+            'int_grid': int_grid, 'statmech': model is not None, 'scale': scale != 1.0}
+    # ---- order and container of the data (from_data only)
+    Tin, Cpin = T, Cp
+    if route == 'data':
+        if order == 'dup':
+            # repeated temperatures (a data set merged from overlapping series); the five lowest and five highest
+            # stay distinct so that every screened NASA-7 T_mid still leaves five distinct temperatures on each side
+            k = max(1, len(T) // 10)
+            ii = sorted(rnd.randrange(5, len(T) - 5) for _ in range(k))
+            sel = np.sort(np.concatenate([np.arange(len(T)), np.array(ii, dtype=int)]))
+            Tin, Cpin = T[sel], Cp[sel]
+        elif order == 'desc':
+            Tin, Cpin = T[::-1].copy(), Cp[::-1].copy()
+        elif order == 'shuffled':
+            perm = list(range(len(T)))
+            rnd.shuffle(perm)
+            Tin, Cpin = T[perm], Cp[perm]
+        if cont == 'listCp':
+            Cpin = [float(x) for x in Cpin]
+        elif cont == 'pylist':
+            Tin, Cpin = [float(x) for x in Tin], [float(x) for x in Cpin]
+    info['T_is_int'] = bool(int_grid)
     try:
         cls = {'nasa7': Nasa, 'nasa9': Nasa9, 'shomate': Shomate}[fam]
         extra = {'units': units} if fam == 'shomate' else {}
@@ -214,26 +356,54 @@ def execute(case):
                 _, href, sref = src_vals(T_ref)
             else:
                 href, sref = rnd.uniform(-40, 40), rnd.uniform(5, 60)
-            obj = cls.from_data(name='fit', T=T, CpoR=Cp, T_ref=T_ref, HoRT_ref=href, SoR_ref=sref,
+                z = case['cseed'] % 4                    # falsy reference values
+                if z == 0:
+                    href = 0.0
+                elif z == 1:
+                    sref = 0.0
+            # the reference as Python floats, numpy scalars, or an integer-valued int temperature
+            T_ref_arg, href_arg, sref_arg = T_ref, href, sref
+            if case['reft'] == 'np':
+                T_ref_arg, href_arg, sref_arg = np.float64(T_ref), np.float64(href), np.float64(sref)
+            elif case['reft'] == 'int' and float(T_ref).is_integer():
+                # a Python int, or the numpy integer a caller gets from indexing an integer temperature array
+                T_ref_arg = [int, np.int64, np.int32][case['cseed'] % 3](T_ref)
+            info['ref_types'] = [type(T_ref_arg).__name__, type(href_arg).__name__]
+            obj = cls.from_data(name='fit', T=Tin, CpoR=Cpin, T_ref=T_ref_arg, HoRT_ref=href_arg, SoR_ref=sref_arg,
                                 elements={'C': 1, 'H': 4}, phase='S', **tm_arg, **extra)
         else:
             m = model if model is not None else _PolyModel(fam, pieces[0], units, T_low, T_high)
-            kw = dict(model=m, name='fit', T_low=T_low, T_high=T_high, elements={'C': 1, 'H': 4}, phase='S')
+            kw = dict(name='fit', T_low=T_low, T_high=T_high, elements={'C': 1, 'H': 4}, phase='S')
+            if mform == 'class':
+                # the documented alternative: the model's class plus the keywords that initialise it
+                kw.update(model=StatMech, **mkw)
+            elif mform == 'attrs':
+                # name / T_low / T_high / elements left to the model's attributes
+                if model is not None:
+                    m = model = _mk_statmech(mkw, T_low, T_high)
+                kw = dict(model=m, phase='S')
+            else:
+                kw['model'] = m
             if fam == 'nasa9':
-                kw.update(n_interval=nseg, fit_T_mid=False if case['tmid'] == 'list' else True)
-                if case['tmid'] == 'list':
-                    kw['T_mid'] = np.array(brk)
+                kw.update(n_interval=nseg, n_T=n)
+                if case['tmid'] == 'none':
+                    kw['fit_T_mid'] = True
+                else:
+                    kw.update(tm_arg)
+                    kw['fit_T_mid'] = fit
             elif fam == 'nasa7':
                 kw.update(tm_arg)
-                kw['n_T'] = npts
+                kw['n_T'] = n
             else:
                 kw.update(extra)
-                kw['n_T'] = npts
+                kw['n_T'] = n
             obj = cls.from_model(**kw)
             # reference used by the library: mid-window (NASA-7, Shomate) / T_low (NASA-9)
             T_ref = T_low if fam == 'nasa9' else 0.5 * (T_low + T_high)
             _, href, sref = (float(m.get_CpoR(T=T_ref)), float(m.get_HoRT(T=T_ref)), float(m.get_SoR(T=T_ref)))
             info['T_ref'] = T_ref
+            if mform == 'attrs' and (obj.name != 'src' or dict(obj.elements) != {'C': 1, 'H': 4}):
+                raise ValueError('name / elements not taken from the model: %r %r' % (obj.name, obj.elements))
     except Exception as ex:
         e['st'] = 'raise'
         info['raised'] = '%s: %s' % (type(ex).__name__, ex)
@@ -251,6 +421,13 @@ def execute(case):
         else:
             obrk, segs = [], [obj.a]
         sev = _evals(fam, units)
+        if route == 'model' and fam == 'nasa9':
+            # the grid from_model built: n points per fitted interval
+            oe = [T_low] + obrk + [T_high]
+            Tdata = np.concatenate([np.linspace(a, b, n) for a, b in zip(oe, oe[1:])])
+        else:
+            Tdata = np.asarray(T, dtype=float)
+        Tdist = np.unique(Tdata)
         e.update({'Tlo': to_dec(float(obj.T_low)), 'Thi': to_dec(float(obj.T_high)),
                   'dmin': to_dec(float(min(T))), 'dmax': to_dec(float(max(T))),
                   'brk': [to_dec(b) for b in obrk], 'tref': to_dec(T_ref), 'href': to_dec(href), 'sref': to_dec(sref),
@@ -262,6 +439,12 @@ def execute(case):
                   'sr': [to_dec(sev[2](segs[i + 1], b)) for i, b in enumerate(obrk)]})
         samples = []
         worst = [0.0, 0.0, 0.0]
+        oedges = [float(obj.T_low)] + obrk + [float(obj.T_high)]
+        # distinct data temperatures of each fitted segment (T_low < T <= T_high of the segment, the split the fits
+        # use; the lowest segment also holds the lowest data temperature)
+        segcount = [int(((Tdist > oedges[j]) & (Tdist <= oedges[j + 1])).sum()) + (1 if j == 0 else 0)
+                    for j in range(len(oedges) - 1)]
+        info['segcount'] = segcount
         for t in np.linspace(T_low, T_high, 25):
             t = float(t)
             f = (float(np.squeeze(obj.get_CpoR(T=t))), float(np.squeeze(obj.get_HoRT(T=t))),
@@ -269,14 +452,18 @@ def execute(case):
             s = src_vals(t) if (model is not None or src != 'piecewise') else f
             if route == 'model' and model is None:
                 s = src_vals(t)
-            oedges = [float(obj.T_low)] + obrk + [float(obj.T_high)]
             j = 0
             while j < len(oedges) - 2 and t > oedges[j + 1]:
                 j += 1
-            npt = int(((T >= oedges[j]) & (T <= oedges[j + 1])).sum())
-            samples.append([to_dec(t)] + [to_dec(x) for x in f] + [to_dec(x) for x in s] + [1 if npt >= 10 else 0])
-            for j in range(3):
-                worst[j] = max(worst[j], abs(f[j] - s[j]))
+            # H and S of a segment are chained to the reference through every segment in between: a sample is
+            # judged for recovery / tracking only if all of them are determined by the data
+            jr = 0
+            while jr < len(oedges) - 2 and T_ref > oedges[jr + 1]:
+                jr += 1
+            npt = min(segcount[min(j, jr):max(j, jr) + 1])
+            samples.append([to_dec(t)] + [to_dec(x) for x in f] + [to_dec(x) for x in s] + [min(npt, 99)])
+            for q in range(3):
+                worst[q] = max(worst[q], abs(f[q] - s[q]))
         e['samples'] = samples
         info['worst_abs_dev'] = worst
         info['obj_breaks'] = obrk
@@ -296,13 +483,67 @@ def _safe(case):
         raise core.MachineryError('driver failure on %r: %s' % (case, traceback.format_exc()[-800:]))
 
 
+KEYS = ('fam', 'src', 'nseg', 'tref', 'tmid', 'route')
+TAGS = KEYS + ('win', 'nt', 'order', 'cont', 'tmform', 'mform', 'fit', 'grid', 'reft')
+
+
+def _build_cases(ctx, cfgs, rnd):
+    """Every TLC configuration at least once per repetition; the groups with few configurations are repeated until
+    each (family, route) holds enough cases for its rotating axes (and, for Shomate, all 16 units)."""
+    cfgs = sorted(cfgs, key=lambda c: [c[k] for k in KEYS])
+    groups = {}
+    for c in cfgs:
+        groups.setdefault((c['fam'], c['route']), []).append(c)
+    # cases per (family, route) at least; Shomate has the fewest configurations but the largest unit space
+    floors = {('shomate', 'data'): ctx.pick(160, 1600), ('shomate', 'model'): ctx.pick(96, 960),
+              ('nasa7', 'data'): ctx.pick(226, 2400), ('nasa9', 'data'): ctx.pick(380, 3800)}
+    reps0 = ctx.pick(1, 12)
+    cases = []
+    counters = {}
+    admissible = {}
+    for (fam, route), lst in sorted(groups.items()):
+        reps = max(reps0, -(-floors.get((fam, route), ctx.pick(48, 480)) // len(lst)))
+        for c in lst:
+            for ax, key in AXES:
+                for v in c[key]:
+                    admissible.setdefault((fam, route, ax, v), 0)
+        for rep in range(reps):
+            for c in lst:
+                case = {k: c[k] for k in KEYS}
+                # each axis is dealt per (family, route) in freshly shuffled rounds of its admissible values: every
+                # value comes up once per round (balanced), in an order that does not alias with the configuration list
+                for ax, key in AXES:
+                    vals = sorted(c[key])
+                    k = (fam, route, ax, len(vals))
+                    if not counters.get(k):
+                        counters[k] = rnd.sample(range(len(vals)), len(vals))
+                    case[ax] = vals[counters[k].pop()]
+                ku = (fam, route, 'unit')
+                case['unit'] = counters.get(ku, ctx.seed)
+                counters[ku] = case['unit'] + 1
+                case['cseed'] = rnd.randrange(1 << 30)
+                slow = fam == 'nasa9' and route == 'model' and (c['tmid'] == 'none' or case['fit'] == 'fit') \
+                    and c['nseg'] > 1
+                if slow and case['nt'] in ('199', '200') and ctx.quick and rep % 3:
+                    case['nt'] = 'mid' if rep % 3 == 1 else '15'      # the Nelder-Mead T_mid search costs ~3 s at n_T = 200
+                cases.append(case)
+                if route == 'model' and c['src'].startswith('statmech') and not slow and rep < ctx.pick(2, 12):
+                    # the vectorised source evaluation: diatomic sources and grids as long as the mode list
+                    for nm in (1, 15):
+                        cases.append(dict(case, cseed=rnd.randrange(1 << 30), nmodes=nm, nt='15' if nm == 15 else case['nt']))
+    return cases, admissible
+
+
 def run(ctx):
     ctx.coverage['rule'] = (
         'a case is one fit: a configuration emitted by TLC from FitCases.tla (family x source x number of segments '
-        'x reference-temperature position x T_mid form x from_data/from_model) instantiated with a random window '
-        '(100 <= T_low < T_high <= 3000), data density and coefficients; non-trivial: every case (each calls the real '
-        'fit); distinct by (configuration, seed)')
+        'x reference-temperature position x T_mid form x from_data/from_model), completed with one admissible value '
+        'of each rotating axis (window class, n_T, data order, data container, T_mid container, model form, '
+        'fit_T_mid, NASA-9 grid, Shomate unit) and instantiated with a random window of the class '
+        '(100 <= T_low < T_high <= 3000), coefficients / StatMech parameters; non-trivial: every case (each calls '
+        'the real fit); distinct by (configuration, axes, seed)')
     rnd = random.Random(ctx.seed)
+    admissible = {}
     if ctx.replay_case is not None:
         cases = [ctx.replay_case['case']]
     else:
@@ -315,25 +556,41 @@ def run(ctx):
                          'segment 1 and the segment records are not aliased (MC_Fit_first_char)')
         cfgs, r = core.tlc_cases('FitCases', 'FitCases')
         ctx.coverage['tlc_configurations'] = len(cfgs)
-        cases = []
-        for rep in range(ctx.pick(3, 40)):
-            for c in cfgs:
-                if c['route'] == 'model' and c['fam'] == 'nasa9' and c['tmid'] != 'list' and rep % 3:
-                    continue                     # Nelder-Mead T_mid search is slow (~0.5 s): every third repetition
-                cases.append(dict(c, cseed=rnd.randrange(1 << 30)))
-                if c['route'] == 'model' and c['src'].startswith('statmech') and not (c['fam'] == 'nasa9' and c['tmid'] != 'list'):
-                    # the vectorised source evaluation: diatomic sources and grids as long as the mode list
-                    for nm in (1, 15):
-                        cases.append(dict(c, cseed=rnd.randrange(1 << 30), nmodes=nm))
+        cases, admissible = _build_cases(ctx, cfgs, rnd)
     results = core.pmap(_safe, cases)
     traces = []
     worst = {}
+    cov = {}                                   # vacuity counters of the input classes
+
+    def hit(*k):
+        cov[k] = cov.get(k, 0) + 1
     for tid, (case, (events, info)) in enumerate(zip(cases, results)):
         ctx.evaluated()
-        ctx.nontrivial([case[k] for k in ('fam', 'src', 'nseg', 'tref', 'tmid', 'route', 'cseed')])
+        ctx.nontrivial([case.get(k) for k in TAGS + ('unit', 'cseed', 'nmodes')])
         traces.append((tid, events))
+        fam, route = case['fam'], case['route']
+        for ax, _ in AXES:
+            v = case[ax]
+            if ax == 'cont' and v == 'int' and not info.get('int_grid'):
+                v = 'ndarray'                  # the window was too narrow for an integer grid of that length
+            hit(fam, route, ax, v)
+        if fam == 'shomate':
+            hit('unit', route, UNIT_ROUND[case['unit'] % len(UNIT_ROUND)])
+        if events[0]['st'] == 'ok':
+            lo, hi = info['T_low'], info['T_high']
+            if lo == 100.0:
+                hit('bound', fam, 'T_low=100')
+            if hi == 3000.0:
+                hit('bound', fam, 'T_high=3000')
+            hit('npts', fam, route, case['nt'])
+            if info.get('statmech'):
+                hit('source', fam, route, 'StatMech:' + case['src'])
+            if case['tref'] == 'lib' and fam == 'nasa7' and info['obj_breaks'] and info['obj_breaks'][0] == info['T_ref']:
+                hit('tref', fam, 'from_model T_ref == T_mid')
+            if 'ref_types' in info:
+                hit('reftype', fam, 'int' if info['ref_types'][0].startswith('int') else info['ref_types'][0])
         if 'worst_abs_dev' in info and case['src'].startswith('statmech'):
-            w = worst.setdefault(case['fam'], [0.0, 0.0, 0.0])
+            w = worst.setdefault(fam, [0.0, 0.0, 0.0])
             for j in range(3):
                 w[j] = max(w[j], info['worst_abs_dev'][j])
         if tid % 97 == 0:
@@ -341,13 +598,78 @@ def run(ctx):
     ctx.coverage['statmech_tracking_worst_abs_dev_CpoR_HoRT_SoR'] = worst
     fails, stats = core.validate_traces('Trace_Fit', 'Trace', traces)
     ctx.count('traces_validated_against_impl', len(traces))
+    judged = {}
     for tid, idx, clause in fails:
         case = cases[tid]
-        tags = {k: case[k] for k in ('fam', 'src', 'nseg', 'tref', 'tmid', 'route')}
+        if clause.startswith('~'):                 # vacuity accounting of the trace spec, not a verdict
+            k = (case['fam'], clause[1:].split(':')[0])
+            judged[k] = judged.get(k, 0) + 1
+            kind = clause[1:].split(':')[0]
+            hit('judged_route', case['fam'], case['route'], kind)
+            hit('judged_win', case['fam'], kind, case['win'])
+            hit('judged_nt', case['fam'], kind, case['nt'])
+            continue
+        tags = {k: case[k] for k in TAGS}
         ctx.violation(clause, case, tags=tags, detail=results[tid][1])
-    ctx.assume('statistical-mechanical tracking uses fixed coarse thresholds (Cp/R 0.25, H/RT 0.15, S/R 0.15); the '
-               'least-squares optimality of the Cp fit itself is not checked')
-    ctx.assume('each segment carries at least 10 data points (under-determined fits are outside the quantifier)')
+    ctx.coverage['judged_fits_by_family_and_kind'] = {'%s %s' % k: v for k, v in sorted(judged.items())}
+    ctx.coverage['input_classes_exercised'] = {' '.join(str(x) for x in k): v for k, v in sorted(cov.items())}
+    if ctx.replay_case is None:
+        _vacuity(cov, admissible)
+    ctx.assume('statistical-mechanical tracking is banded by the largest segment span ratio of the fitted object '
+               '(Trace_Fit.tla); the least-squares optimality of the Cp fit itself is not checked')
+    ctx.assume('a segment is judged for recovery / tracking when it holds enough distinct data temperatures to '
+               'determine its Cp polynomial (5 for NASA-7 and Shomate, 7 for NASA-9); under-determined fits are '
+               'outside the quantifier')
+    ctx.assume('T is a numpy array for Nasa.from_data (documented type); NASA-9 break lists are ascending')
+
+
+def _vacuity(cov, admissible):
+    """every input class of the quantifier must have been exercised in this run (zero => exit 2)"""
+    missing = []
+    for (fam, route, ax, v) in sorted(admissible):
+        if not cov.get((fam, route, ax, v)):
+            missing.append((fam, route, ax, v))
+    TR = ('tracks2', 'tracks3', 'tracks4', 'tracks6', 'tracks31')
+    for route in ('data', 'model'):
+        for u in UNITS:
+            if not cov.get(('unit', route, u)):
+                missing.append(('shomate unit', route, u))
+    for fam in ('nasa7', 'nasa9', 'shomate'):
+        for b in ('T_low=100', 'T_high=3000'):
+            if not cov.get(('bound', fam, b)):
+                missing.append(('bound', fam, b))
+        for route in ('data', 'model'):
+            for nt in ('15', '16', 'mid', '199', '200'):
+                if not cov.get(('npts', fam, route, nt)):
+                    missing.append(('n_T fitted', fam, route, nt))
+            for s in ('statmech_gas', 'statmech_ads'):
+                if not cov.get(('source', fam, route, 'StatMech:' + s)):
+                    missing.append(('source', fam, route, s))
+            if not cov.get(('judged_route', fam, route, 'exact')):
+                missing.append(('exact recovery judged', fam, route))
+            if not any(cov.get(('judged_route', fam, route, k)) for k in TR):
+                missing.append(('tracking judged', fam, route))
+        for nt in ('15', '16', 'mid', '199', '200'):
+            if not cov.get(('judged_nt', fam, 'exact', nt)):
+                missing.append(('n_T judged for exact recovery', fam, nt))
+            if not any(cov.get(('judged_nt', fam, k, nt)) for k in TR):
+                missing.append(('n_T judged for tracking', fam, nt))
+        for w in ('full', 'wide', 'narrow', 'tiny', 'low_end', 'high_end', 'high_only'):
+            if not cov.get(('judged_win', fam, 'exact', w)):
+                missing.append(('window judged for exact recovery', fam, w))
+            if not any(cov.get(('judged_win', fam, k, w)) for k in TR):
+                if not (fam == 'nasa9' and w == 'full'):      # NASA-9 over 100-3000 K in <= 3 intervals: span ratio > 3.1
+                    missing.append(('window judged for tracking', fam, w))
+        for s in ('const', 'zero'):
+            if not cov.get(('source', fam, 'model', 'StatMech:' + s)):
+                missing.append(('source', fam, 'model', 'StatMech ' + s))
+        for t in ('float', 'float64', 'int'):
+            if not cov.get(('reftype', fam, t)):
+                missing.append(('reference type', fam, t))
+    if not cov.get(('tref', 'nasa7', 'from_model T_ref == T_mid')):
+        missing.append(('nasa7 from_model with T_ref == T_mid',))
+    if missing:
+        raise core.MachineryError('vacuous run, input classes never exercised: %r' % (missing[:40],))
 
 
 if __name__ == '__main__':
